@@ -397,10 +397,11 @@ def mentions(line, name):
 # --------------------------------------------------------------------------- evidence / findings
 
 def write_evidence(pid, tier, level, coverage, wall, violations=0, assumptions=None):
-    os.makedirs(os.path.join(VERIF, "evidence"), exist_ok=True)
+    evdir = os.environ.get("VERIF_EVIDENCE_DIR") or os.path.join(VERIF, "evidence")      # rehearsals write elsewhere
+    os.makedirs(evdir, exist_ok=True)
     ev = {"property_id": pid, "tier": tier, "seed": seed(), "level": level, "coverage": coverage,
           "assumptions": assumptions or [], "wall_s": round(wall, 2), "violations": violations}
-    p = os.path.join(VERIF, "evidence", pid + ".json")
+    p = os.path.join(evdir, pid + ".json")
     tmp = p + ".tmp"
     with open(tmp, "w") as f:
         json.dump(ev, f, indent=1, ensure_ascii=False, default=str)
@@ -441,7 +442,7 @@ class Verdict:
             print("KNOWN-FINDING: property=%s %s (%s; %d cases)" % (self.pid, f["text"], fid, n))
         if not self.violations:
             return 0
-        rd = os.path.join(VERIF, "replays", "%s-%s-%d" % (self.pid, tier, int(time.time())))
+        rd = os.path.join(os.environ.get("VERIF_REPLAY_DIR") or os.path.join(VERIF, "replays"), "%s-%s-%d" % (self.pid, tier, int(time.time())))
         os.makedirs(rd, exist_ok=True)
         summary = {}
         for x in self.violations:
